@@ -11,6 +11,7 @@ import ast
 
 from ..index import u, call_name, call_attr, walk_local, FUNC_TYPES
 from ..util import assignments_to
+from . import shared
 
 SETOPS = (ast.BitOr, ast.BitAnd, ast.Sub, ast.BitXor)
 SET_ATTRS = {'citations', 'features'}            # attributes documented/initialised as sets of str
@@ -163,6 +164,7 @@ def run(ck):
     ck.expect_count('ORD iteration sites', nsites, 25)
     stale = [k for k in TRIAGE if k not in seen_keys]
     ck.extra['ord'] = {'sites': nsites, 'triage_entries': len(TRIAGE), 'triage_entries_not_matched_on_this_tree': ['|'.join(k) for k in stale]}
+    shared.pdb_atom_record_rules(ck, 'ORD-record-local')
     ck.assume('only the PYTHONHASHSEED clause of C11 is decided; order-, name- and frame-independence depend on search outcomes and numerics')
     ck.assume('set-typed values reaching a function as parameters or through containers are not inferred (kind inference is local: displays, set algebra, '
               'set()/frozenset(), connected components, attributes {})'.format(sorted(SET_ATTRS)))
